@@ -1,4 +1,5 @@
 import BfeVerif.C07.Model
+import BfeVerif.C07.Proxy
 /-! C07 — helper lemmas: the per-request frame property of `loop`, and the global counting invariant. -/
 namespace BfeVerif.C07
 
@@ -26,8 +27,8 @@ theorem frame_rt (conn : Nat → Int) (tb : Option Nat) (b' b : Nat) :
   · have : ¬ b' = b := fun e => hb e.symm
     simp [hb, this] at h ⊢; omega
 
-theorem crossPhase_frame (cfg : Cfg) (p : Nat) (s : LS) :
-    (crossPhase cfg p s).2.conn = s.conn ∧ (crossPhase cfg p s).2.tb = s.tb := by
+theorem crossPhase_frame (pol : Policy) (cfg : Cfg) (p : Nat) (s : LS) :
+    (crossPhase pol cfg p s).2.conn = s.conn ∧ (crossPhase pol cfg p s).2.tb = s.tb := by
   unfold crossPhase
   split
   · simp
@@ -36,8 +37,8 @@ theorem crossPhase_frame (cfg : Cfg) (p : Nat) (s : LS) :
     · simp
     · split <;> simp
 
-theorem balance_frame (cfg : Cfg) (s : LS) :
-    (balance cfg s).2.conn = s.conn ∧ (balance cfg s).2.tb = s.tb := by
+theorem balance_frame (pol : Policy) (cfg : Cfg) (s : LS) :
+    (balance pol cfg s).2.conn = s.conn ∧ (balance pol cfg s).2.tb = s.tb := by
   unfold balance
   split
   · simp
@@ -47,8 +48,8 @@ theorem balance_frame (cfg : Cfg) (s : LS) :
     · split
       · split
         · simp
-        · rw [(crossPhase_frame _ _ _).1, (crossPhase_frame _ _ _).2]; simp
-      · exact crossPhase_frame _ _ _
+        · rw [(crossPhase_frame _ _ _ _).1, (crossPhase_frame _ _ _ _).2]; simp
+      · exact crossPhase_frame _ _ _ _
 
 /-- at the moment of a RoundTrip to `b'` the counters are the ones at entry, minus this request's old
     contribution, plus one for `b'` -/
@@ -56,15 +57,15 @@ def SnapOK (c0 : Nat → Int) (tb0 : Option Nat) : Ev → Prop
   | .rt b' _ _ snap _ => ∀ b, snap b - ind (some b') b = c0 b - ind tb0 b
   | .fin _ _ => True
 
-theorem loop_frame (cfg : Cfg) (rq : ReqSpec) : ∀ (n : Nat) (s : LS) (last : Err),
-    (∀ b, (loop cfg rq n s last).st.conn b - ind (loop cfg rq n s last).st.tb b = s.conn b - ind s.tb b) ∧
-    (∀ e ∈ (loop cfg rq n s last).evs, SnapOK s.conn s.tb e) := by
+theorem loop_frame (pol : Policy) (cfg : Cfg) (rq : ReqSpec) : ∀ (n : Nat) (s : LS) (last : Err),
+    (∀ b, (loop pol cfg rq n s last).st.conn b - ind (loop pol cfg rq n s last).st.tb b = s.conn b - ind s.tb b) ∧
+    (∀ e ∈ (loop pol cfg rq n s last).evs, SnapOK s.conn s.tb e) := by
   intro n
   induction n with
   | zero => intro s last; simp [loop]
   | succ n ih =>
     intro s last
-    have hb := balance_frame cfg s
+    have hb := balance_frame pol cfg s
     rw [loop]
     split
     · -- crossbal: continue
@@ -77,11 +78,11 @@ theorem loop_frame (cfg : Cfg) (rq : ReqSpec) : ∀ (n : Nat) (s : LS) (last : E
       rw [heq] at hb
       dsimp only at hb
       simp [hb.1, hb.2]
-    · rename_i b sub x s1 heq
+    · rename_i b0 sub x s1 heq
       rw [heq] at hb
       dsimp only at hb
-      have hfr : ∀ b', upd (decTb s1.conn s1.tb) b 1 b' - ind (some b) b' = s.conn b' - ind s.tb b' := by
-        intro b'; rw [frame_rt, hb.1, hb.2]
+      have hfr : ∀ b b', upd (decTb s1.conn s1.tb) b 1 b' - ind (some b) b' = s.conn b' - ind s.tb b' := by
+        intro b b'; rw [frame_rt, hb.1, hb.2]
       have hff : ∀ b', decTb s1.conn s1.tb b' - ind none b' = s.conn b' - ind s.tb b' := by
         intro b'; rw [frame_fin, hb.1, hb.2]
       dsimp only
@@ -93,23 +94,27 @@ theorem loop_frame (cfg : Cfg) (rq : ReqSpec) : ∀ (n : Nat) (s : LS) (last : E
       · split
         · -- response
           refine ⟨fun b' => ?_, ?_⟩
-          · dsimp only; exact hfr b'
-          · intro e he; dsimp only at he; simp only [List.mem_singleton] at he; subst he; exact hfr
+          · dsimp only; exact hfr _ b'
+          · intro e he; dsimp only at he; simp only [List.mem_singleton] at he; subst he; exact hfr _
         · split
           · -- retry
-            have ih' := ih ⟨s1.cur, upd (decTb s1.conn s1.tb) b 1, some b, s1.retry + 1,
-                         ecOf s1.ec (s1.script.headD Attempt.dflt).rt, s1.cross, s1.script.tail, s1.choices⟩
+            have ih' := ih ⟨pol.note cfg s1.bs (target cfg (s1.script.headD Attempt.dflt).fwd b0)
+                           (s1.script.headD Attempt.dflt).rt,
+                         upd (decTb s1.conn s1.tb) (target cfg (s1.script.headD Attempt.dflt).fwd b0) 1,
+                         some (target cfg (s1.script.headD Attempt.dflt).fwd b0), s1.retry + 1,
+                         ecOf s1.ec (s1.script.headD Attempt.dflt).rt, s1.cross, s1.script.tail, s1.choices,
+                         b0 :: s1.picks⟩
                        (errOf (s1.script.headD Attempt.dflt).rt)
             refine ⟨fun b' => ?_, ?_⟩
             · dsimp only
               have h1 := ih'.1 b'
               dsimp only at h1
-              rw [h1]; exact hfr b'
+              rw [h1]; exact hfr _ b'
             · intro e he
               dsimp only at he
               simp only [List.mem_cons] at he
               rcases he with he | he
-              · subst he; exact hfr
+              · subst he; exact hfr _
               · have h2 := ih'.2 e he
                 cases e with
                 | fin _ _ => trivial
@@ -117,10 +122,10 @@ theorem loop_frame (cfg : Cfg) (rq : ReqSpec) : ∀ (n : Nat) (s : LS) (last : E
                   intro b'
                   have h3 := h2 b'
                   dsimp only at h3
-                  rw [h3]; exact hfr b'
+                  rw [h3]; exact hfr _ b'
           · refine ⟨fun b' => ?_, ?_⟩
-            · dsimp only; exact hfr b'
-            · intro e he; dsimp only at he; simp only [List.mem_singleton] at he; subst he; exact hfr
+            · dsimp only; exact hfr _ b'
+            · intro e he; dsimp only at he; simp only [List.mem_singleton] at he; subst he; exact hfr _
 
 /-! ### the global invariant over schedules -/
 
@@ -186,8 +191,8 @@ theorem WF_init (cfg : Cfg) (n : Nat) : WF (G.init cfg n) := by
     simp [G.init, List.mem_replicate] at hr
     rw [hr.2]
 
-theorem WF_step (cfg : Cfg) (reqs : List ReqSpec) (g : G) (st : Step) (ch : List Nat) (h : WF g) :
-    WF (step cfg reqs g st ch) := by
+theorem WF_step (pol : Policy) (cfg : Cfg) (reqs : List ReqSpec) (g : G) (st : Step) (ch : List Nat) (h : WF g) :
+    WF (step pol cfg reqs g st ch) := by
   obtain ⟨hc, hq⟩ := h
   cases st with
   | inv k =>
@@ -199,13 +204,13 @@ theorem WF_step (cfg : Cfg) (reqs : List ReqSpec) (g : G) (st : Step) (ch : List
       · rename_i hinv
         have hmem : r ∈ g.rqs := List.mem_of_getElem? hr
         have htb : r.tb = none := hq r hmem (Or.inl (by simpa using hinv))
-        have hf := (loop_frame cfg rq 20 ⟨g.cur, g.conn, none, 0, .none, false, rq.script, ch⟩ .nil).1
+        have hf := (loop_frame pol cfg rq 20 (entryLS g rq ch) .nil).1
         constructor
         · intro b
           dsimp only
           rw [inflight_setRq g.rqs k r _ hr b]
           have := hf b
-          dsimp only at this
+          rw [show (entryLS g rq ch).conn = g.conn from rfl, show (entryLS g rq ch).tb = none from rfl] at this
           rw [htb, ← hc b]
           simp only [ind] at this ⊢
           simp at this ⊢
@@ -238,13 +243,120 @@ theorem WF_step (cfg : Cfg) (reqs : List ReqSpec) (g : G) (st : Step) (ch : List
           · exact hq r' h' hcond
     · exact ⟨hc, hq⟩
 
-theorem WF_run (cfg : Cfg) (reqs : List ReqSpec) (sched : List Step) :
-    ∀ (g : G) (chs : List (List Nat)), WF g → WF (runSched cfg reqs g sched chs) := by
+theorem WF_run (pol : Policy) (cfg : Cfg) (reqs : List ReqSpec) (sched : List Step) :
+    ∀ (g : G) (chs : List (List Nat)), WF g → WF (runSched pol cfg reqs g sched chs) := by
   induction sched with
   | nil => intro g chs h; simpa [runSched] using h
   | cons st rest ih =>
     intro g chs h
     simp only [runSched]
-    exact ih _ _ (WF_step cfg reqs g st _ h)
+    exact ih _ _ (WF_step pol cfg reqs g st _ h)
+
+/-! ### websocket / stream proxies -/
+open Px in
+theorem find_frame (dial : Nat → Bool) : ∀ (n : Nat) (sc : List Pick) (conn : Nat → Int) (b : Nat),
+    (find dial n sc conn).2.1 b - ind (find dial n sc conn).1 b = conn b := by
+  intro n
+  induction n with
+  | zero => intro sc conn b; simp [find, ind]
+  | succ n ih =>
+    intro sc conn b
+    cases sc with
+    | nil => simp only [find]; exact ih [] conn b
+    | cons p ps =>
+      cases p with
+      | err => simp only [find]; exact ih ps conn b
+      | be j =>
+        simp only [find]
+        split
+        · simp only [ind, upd]
+          by_cases hb : b = j
+          · subst hb; simp
+          · have : ¬ j = b := fun e => hb e.symm
+            simp [hb, this]
+        · dsimp only
+          rw [ih ps _ b]
+          simp only [upd]
+          split <;> omega
+
+open Px in
+/-- the invariant of the proxy model (same shape as `WF`) -/
+def PWF (g : PG) : Prop :=
+  (∀ b, g.conn b = inflight g.conns b) ∧
+  (∀ r ∈ g.conns, (r.invoked = false ∨ r.done = true) → r.tb = none)
+
+open Px in
+theorem PWF_init (n : Nat) : PWF (PG.init n) := by
+  constructor
+  · intro b
+    simp only [PG.init]
+    rw [inflight_zero]
+    intro r hr
+    simp [List.mem_replicate] at hr
+    rw [hr.2]
+  · intro r hr _
+    simp [PG.init, List.mem_replicate] at hr
+    rw [hr.2]
+
+open Px in
+theorem PWF_step (dial : Nat → Bool) (rm : Nat) (scripts : List (List Pick)) (g : PG) (st : Step)
+    (h : PWF g) : PWF (pstep dial rm scripts g st) := by
+  obtain ⟨hc, hq⟩ := h
+  cases st with
+  | inv k =>
+    simp only [pstep]
+    split
+    · rename_i sc r hsc hr
+      split
+      · exact ⟨hc, hq⟩
+      · rename_i hinv
+        have hmem : r ∈ g.conns := List.mem_of_getElem? hr
+        have htb : r.tb = none := hq r hmem (Or.inl (by simpa using hinv))
+        constructor
+        · intro b
+          dsimp only
+          rw [inflight_setRq g.conns k r _ hr b]
+          have := find_frame dial (effRetry rm) sc g.conn b
+          rw [htb, ← hc b]
+          simp only [ind] at this ⊢
+          simp at this ⊢
+          omega
+        · intro r' hr' hcond
+          dsimp only at hr'
+          rcases mem_setRq _ _ _ _ hr' with h' | h'
+          · subst h'; simp at hcond
+          · exact hq r' h' hcond
+    · exact ⟨hc, hq⟩
+  | fin k =>
+    simp only [pstep]
+    split
+    · rename_i r hr
+      split
+      · exact ⟨hc, hq⟩
+      · constructor
+        · intro b
+          dsimp only
+          rw [inflight_setRq g.conns k r _ hr b]
+          have := frame_fin g.conn r.tb b
+          rw [← hc b]
+          simp only [ind] at this ⊢
+          simp at this ⊢
+          omega
+        · intro r' hr' hcond
+          dsimp only at hr'
+          rcases mem_setRq _ _ _ _ hr' with h' | h'
+          · subst h'; rfl
+          · exact hq r' h' hcond
+    · exact ⟨hc, hq⟩
+
+open Px in
+theorem PWF_run (dial : Nat → Bool) (rm : Nat) (scripts : List (List Pick)) (sched : List Step) :
+    ∀ (g : PG), PWF g → PWF (prun dial rm scripts g sched) := by
+  induction sched with
+  | nil => intro g h; simpa [prun] using h
+  | cons st rest ih =>
+    intro g h
+    simp only [prun]
+    exact ih _ (PWF_step dial rm scripts g st h)
 
 end BfeVerif.C07
